@@ -30,6 +30,7 @@ Section Named.
 Variable tab : list (N * N).
 Variable lit : Z -> str.
 Variable empty_expr : str.
+Variable proc : N -> Z -> Z.
 Variable ps : style.
 Variable inp : input.
 Hypothesis W : wf tab inp.
@@ -43,11 +44,11 @@ Notation bnamed := (fun n : name => OPh (esc tab n)).
 Lemma bind_tok_named : forall k, bind_tok ps k = OPh k.
 Proof. intro k. revert Hps. destruct ps; cbn; congruence. Qed.
 
-Lemma inline_join_named : forall D (items : list (name * Z)),
-  (forall k v, In (k, v) items -> dget k D = Some (PS v)) -> items <> [] ->
-  inline_dict ps (join_toks (map (fun kv => OPh (fst kv)) items)) D = Some (join_vals (map snd items)).
+Lemma inline_join_named : forall D (g : Z -> Z) (items : list (name * Z)),
+  (forall k v, In (k, v) items -> dget k D = Some (PS (g v))) -> items <> [] ->
+  inline_dict ps (join_toks (map (fun kv => OPh (fst kv)) items)) D = Some (join_vals (map g (map snd items))).
 Proof.
-  intros D items. induction items as [|[k v] items IH]; intros H Hne; [congruence|].
+  intros D g items. induction items as [|[k v] items IH]; intros H Hne; [congruence|].
   destruct items as [|[k2 v2] items].
   - cbn [map join_toks fst snd inline_dict join_vals]. rewrite (H k v (or_introl eq_refl)). reflexivity.
   - cbn [map fst snd]. rewrite join_toks_cons2, join_vals_cons2. cbn [inline_dict].
@@ -62,27 +63,27 @@ Qed.
 Lemma named_token : forall done st t, Inv done st ->
   (forall n, t = Bind n -> In n order /\ kind_of inp n = Plain) ->
   (forall n, t = PC n -> In n order /\ kind_of inp n <> Plain /\ In n done) ->
-  exists r, spec_tok lit empty_expr inp t = Some r /\
-            inline_dict ps (final_tok tab lit empty_expr ps inp bnamed t) (fdict tab inp (s_params st)) = Some r.
+  exists r, spec_tok lit empty_expr proc inp t = Some r /\
+            inline_dict ps (final_tok tab lit empty_expr ps inp bnamed t) (fdict tab inp (processed proc inp st)) = Some r.
 Proof.
   intros done st t I Hb Hp. destruct t as [s|n|n].
   - exists (map Ch s). split; [reflexivity|]. cbn [final_tok inline_dict option_map]. rewrite unpct_pct, app_nil_r. reflexivity.
   - destruct (Hb n eq_refl) as [Hn K]. destruct (w_plain _ _ W n Hn K) as [v Hv].
-    exists [Val v]. split; [apply spec_bind; exact Hv|].
-    cbn [final_tok inline_dict]. rewrite (fdict_plain tab lit empty_expr ps inp W done st n I Hn K), Hv. reflexivity.
+    exists [Val (pz proc inp n v)]. split; [apply spec_bind; exact Hv|].
+    cbn [final_tok inline_dict]. rewrite (fdict_plain tab lit empty_expr proc ps inp W done st n v I Hn K Hv). reflexivity.
   - destruct (Hp n eq_refl) as [Hn [K Hd]]. cbn [final_tok spec_tok]. unfold repl_of.
     destruct (kind_of inp n) eqn:K'; [congruence| |].
     + destruct (w_expand _ _ W n Hn K') as [l Hl]. rewrite Hl. unfold plist. rewrite Hl.
       destruct l as [|z l].
       * exists (map Ch empty_expr). split; [reflexivity|]. cbn [repl_expand inline_dict option_map].
         rewrite unpct_pct, app_nil_r. reflexivity.
-      * exists (join_vals (z :: l)). split; [reflexivity|]. unfold repl_expand.
+      * exists (join_vals (map (pz proc inp n) (z :: l))). split; [reflexivity|]. unfold repl_expand.
         rewrite (map_ext _ (fun kv => OPh (fst kv))) by (intro kv; apply bind_tok_named).
         assert (Hx : expanded_names (esc tab n) (z :: l) = xitems tab inp n).
         { unfold xitems, plist. rewrite K', Hl. reflexivity. }
-        rewrite inline_join_named.
+        rewrite (inline_join_named _ (pz proc inp n)).
         -- unfold expanded_names. rewrite expand_from_snd. reflexivity.
-        -- intros k v Hi. rewrite Hx in Hi. exact (fdict_x tab lit empty_expr ps inp W done st n k v I Hd Hi).
+        -- intros k v Hi. rewrite Hx in Hi. exact (fdict_x tab lit empty_expr proc ps inp W done st n k v I Hd Hi).
         -- discriminate.
     + destruct (w_litv _ _ W n Hn K') as [v Hv]. rewrite Hv, (kind_pv inp n v Hv).
       exists (map Ch (lit_of lit empty_expr v)). split; [reflexivity|].
@@ -92,8 +93,8 @@ Qed.
 Lemma named_tokens : forall done st toks, Inv done st ->
   (forall n, In (Bind n) toks -> In n order /\ kind_of inp n = Plain) ->
   (forall n, In (PC n) toks -> In n order /\ kind_of inp n <> Plain /\ In n done) ->
-  exists sp, concat_opt (map (spec_tok lit empty_expr inp) toks) = Some sp /\
-             inline_dict ps (flat_map (final_tok tab lit empty_expr ps inp bnamed) toks) (fdict tab inp (s_params st)) = Some sp.
+  exists sp, concat_opt (map (spec_tok lit empty_expr proc inp) toks) = Some sp /\
+             inline_dict ps (flat_map (final_tok tab lit empty_expr ps inp bnamed) toks) (fdict tab inp (processed proc inp st)) = Some sp.
 Proof.
   intros done st toks I. induction toks as [|t toks IH]; intros Hb Hp.
   - exists []. split; reflexivity.
@@ -108,8 +109,8 @@ Proof.
 Qed.
 
 Theorem named_ok :
-  exists ts fp sp, run tab lit empty_expr ps inp = Ok (ts, fp) /\
-                   inline_spec lit empty_expr inp = Some sp /\ inline ps ts fp = Some sp.
+  exists ts fp sp, run tab lit empty_expr proc ps inp = Ok (ts, fp) /\
+                   inline_spec lit empty_expr proc inp = Some sp /\ inline ps ts fp = Some sp.
 Proof.
   pose proof (numeric_positional ps Hps) as Hnum.
   unfold run, compile. rewrite Hnum, Hps. cbn [bind c_toks c_positiontup].
